@@ -2,5 +2,5 @@ import sys
 from vlib import run
 r = run.run_unit(sys.argv[1], canary=(len(sys.argv)>2 and sys.argv[2]=="canary"))
 print(r["status"], r.get("why"), r["verified"], r["errors"], r["wall"], r.get("canary"))
-for f in r["failures"][:12]: print("FAIL", f["message"], f["site_item"], "|", f["clause"], "\n", f["rendered"][:1200])
-for f in r["others"][:6]: print("OTHER", f["message"], f["site_item"], "\n", f["rendered"][:1500])
+for f in r["failures"][:12]: print("FAIL", f["message"], f["site_item"], "|", f["clause"], "\n", f["rendered"][:500])
+for f in r["others"][:6]: print("OTHER", f["message"], f["site_item"], "\n", f["rendered"][:700])
